@@ -594,8 +594,8 @@ def _literals(fnode, v, depth=0):
     return out
 
 
-def r6(ctx, prog, sf):
-    ctx.rule("C03-R6", "int_flux == peak * (sx*K) * (sy*K) / (a_pix*b_pix) "
+def r6(ctx, prog, sf, rule="C03-R6"):
+    ctx.rule(rule, "int_flux == peak * (sx*K) * (sy*K) / (a_pix*b_pix) "
              "with K = 2*sqrt(2 ln 2)")
     rc = prog.func("source_finder.SourceFinder.result_to_components")
     comp_loop = [lp for lp in rc.node.body if isinstance(lp, ast.For)][0]
@@ -604,21 +604,21 @@ def r6(ctx, prog, sf):
     a2 = [s for s in comp_loop.body if isinstance(s, ast.AugAssign) and
           norm(s.target) == "source.int_flux"]
     if len(a1) != 1 or len(a2) != 1:
-        raise AnalysisError("C03-R6: int_flux statements not recognised")
+        raise AnalysisError(rule + ": int_flux statements not recognised")
     peak, sx, sy = sp.symbols("peak sx sy", positive=True)
     tr = sym.Translator(prog, sf, {"sx": sx, "sy": sy})
     tr.env["source.peak_flux"] = peak
     try:
         e = tr.expr(a1[0].value)
     except sym.Untranslatable as ex:
-        raise AnalysisError("C03-R6: %s" % ex)
+        raise AnalysisError(rule + ": %s" % ex)
     K = 2 * sp.sqrt(2 * sp.log(2))
     ok = sp.simplify(e - peak * sx * sy * K ** 2 * sp.pi) == 0
-    ctx.check("C03-R6", rc, "numerator " + norm(a1[0]), ok,
+    ctx.check(rule, rc, "numerator " + norm(a1[0]), ok,
               "expected peak*sx*sy*K^2*pi, found %s" % e, node=a1[0])
     okd = isinstance(a2[0].op, ast.Div) and isinstance(a2[0].value, ast.Call) \
         and norm(a2[0].value.func).endswith("get_beamarea_pix")
-    ctx.check("C03-R6", rc, "divided by the pixel beam area", okd,
+    ctx.check(rule, rc, "divided by the pixel beam area", okd,
               "int_flux must be divided by the beam area in pixels",
               node=a2[0])
     ba = prog.func("wcs_helpers.WCSHelper.get_beamarea_pix")
@@ -633,7 +633,7 @@ def r6(ctx, prog, sf):
         A, B = sp.symbols("A B", positive=True)
         t2 = sym.Translator(prog, prog.modules[ba.module], {a: A, b: B})
         okb = sp.simplify(t2.expr(ret[0].value) - A * B * sp.pi) == 0
-    ctx.check("C03-R6", ba, "beam area = a_pix*b_pix*pi", okb,
+    ctx.check(rule, ba, "beam area = a_pix*b_pix*pi", okb,
               "the pixel beam area must be a*b*pi of the pixel psf axes",
               node=ba.node)
 
